@@ -18,6 +18,7 @@ same behaviour can be written in other ways; instead of teaching every rule ever
   N7  `if a: (if b: S)` without else branches            ->  `if a and b: S`
   N8  a @staticmethod helper that is only ever called from instance methods of the class (`Cls.h(..)`, `self.h(..)`, `type(self).h(..)`)
       becomes a plain method called as `self.h(..)` -- so that engines/inline.py can inline it like any other helper
+  N10 `self.S[k] += [x]` / `+= [..comprehension..]`       ->  `self.S[k].append(x)` / `.extend([...])`  (the right-hand side is visibly a list)
 All rewritten nodes keep the source position of the statement they replace.  A construct that does not fit exactly is left alone (the rules
 then decline or see the original shape)."""
 from __future__ import annotations
@@ -198,6 +199,18 @@ class _Norm:
                 stmts[i] = merged
                 self.changed = True
                 continue
+            # ---- N10: `<bin> += [x]` on a list held in the object -> `<bin>.append(x)` / `.extend(...)` -----------------------------------
+            if isinstance(st, ast.AugAssign) and isinstance(st.op, ast.Add) and isinstance(st.target, ast.Subscript) and not isinstance(st.target.slice, ast.Slice) \
+                    and isinstance(st.value, (ast.List, ast.ListComp)) and not any(isinstance(x, ast.Starred) for x in getattr(st.value, 'elts', [])):
+                single = isinstance(st.value, ast.List) and len(st.value.elts) == 1
+                call = ast.Call(func=ast.Attribute(value=_load(st.target), attr='append' if single else 'extend', ctx=ast.Load()),
+                                args=[st.value.elts[0] if single else st.value], keywords=[])  # type: ignore[union-attr]
+                new_st = ast.copy_location(ast.Expr(value=ast.copy_location(call, st)), st)
+                ast.fix_missing_locations(new_st)
+                out.append(new_st)
+                self.changed = True
+                i += 1
+                continue
             # ---- N1 -------------------------------------------------------------------------------------------------------------------
             a = _aug(st)
             if a is not None:
@@ -339,11 +352,16 @@ def _bin_aliases(fn: FuncDef, recv: str) -> bool:
                     if not isinstance(later, (ast.Assign, ast.Expr, ast.AugAssign, ast.Return, ast.AnnAssign)) and touches_slot(later, slot):
                         ok = False
                         break
-                    # a simple statement evaluates its value before it stores: `self.S[k] = b[n:]` is fine; a call of a self method in it is not
-                    if any(isinstance(c, ast.Call) and isinstance(c.func, ast.Attribute) and isinstance(c.func.value, ast.Name) and c.func.value.id == recv
-                           for c in ast.walk(later)):
-                        ok = False
-                        break
+                    # a simple statement evaluates its value before it stores: `self.S[k] = b[n:]` is fine.  A call of a self method in it is fine
+                    # only as the outermost expression with the uses among its arguments (arguments are evaluated before the method runs)
+                    selfcalls = [c for c in ast.walk(later) if isinstance(c, ast.Call) and isinstance(c.func, ast.Attribute) and isinstance(c.func.value, ast.Name)
+                                 and c.func.value.id == recv]
+                    if selfcalls:
+                        outer = later.value if isinstance(later, (ast.Expr, ast.Assign, ast.Return, ast.AugAssign, ast.AnnAssign)) else None
+                        arg_ids = {id(x) for a in (list(outer.args) + [k.value for k in outer.keywords]) for x in ast.walk(a)} if isinstance(outer, ast.Call) else set()
+                        if len(selfcalls) != 1 or selfcalls[0] is not outer or not all(id(n) in arg_ids for n in here):
+                            ok = False
+                            break
                     remaining -= set(id(n) for n in here)
                 if touches_slot(later, slot) or any(isinstance(n, ast.Name) and isinstance(n.ctx, (ast.Store, ast.Del)) and n.id in key_names for n in ast.walk(later)):
                     closed = True
@@ -392,6 +410,99 @@ def _static_helpers_to_methods(m: pf.Module, cls: ast.ClassDef) -> None:
         for c in calls:
             c.func = ast.copy_location(ast.Attribute(value=ast.Name(id='self', ctx=ast.Load()), attr=hname, ctx=ast.Load()), c.func)
         ast.fix_missing_locations(h)
+
+
+_READING = {'len', 'min', 'max', 'isinstance', 'sorted', 'sum', 'any', 'all', 'bool', 'int', 'str'}
+
+
+def forward_single_use(fn: FuncDef) -> bool:
+    """N9 (meant for a function with helpers inlined: engines/inline.py binds a non-trivial argument to a fresh local in front of the helper's body).
+           v = E                                   if T: ...                       (no other statement in between)
+           if T: ... else: self.S[k] = v     ->    else: self.S[k] = E
+    for every definition of the local v: each is directly followed by a statement that is an `if` whose test only reads (calls of len / min / ...)
+    or a simple assignment, in which v is read exactly once as the whole right-hand side of an assignment, and v is read nowhere else.
+    Evaluating E inside the branch instead of in front of the test gives the same value: the test changes nothing."""
+    changed = False
+    recv = fn.args.args[0].arg if fn.args.args else None
+
+    def blocks(node: ast.AST):
+        for fld in ('body', 'orelse', 'finalbody'):
+            b = getattr(node, fld, None)
+            if isinstance(b, list) and b and isinstance(b[0], ast.stmt):
+                yield b
+                for st in b:
+                    if not isinstance(st, (ast.FunctionDef, ast.AsyncFunctionDef, ast.ClassDef)):
+                        yield from blocks(st)
+        for h in getattr(node, 'handlers', []) or []:
+            yield h.body
+            for st in h.body:
+                yield from blocks(st)
+    names = {n.id for n in pf.walk_shallow(fn) if isinstance(n, ast.Name) and isinstance(n.ctx, ast.Store)}
+    for name in sorted(names):
+        loads = [n for n in pf.walk_shallow(fn, into_nested_defs=True) if isinstance(n, ast.Name) and n.id == name and isinstance(n.ctx, ast.Load)]
+        sites = []  # (block, index of the definition)
+        ok = True
+        n_stores = 0
+        for blk in blocks(fn):
+            for i, st in enumerate(blk):
+                stores_here = [n for n in ([st] if not isinstance(st, (ast.If, ast.For, ast.While, ast.With, ast.Try)) else []) for n in ast.walk(n)
+                               if isinstance(n, ast.Name) and n.id == name and isinstance(n.ctx, (ast.Store, ast.Del))]
+                if not stores_here:
+                    continue
+                n_stores += len(stores_here)
+                if not (isinstance(st, ast.Assign) and len(st.targets) == 1 and isinstance(st.targets[0], ast.Name) and isinstance(st.value, ast.Subscript)
+                        and isinstance(st.value.slice, ast.Slice) and i + 1 < len(blk)):
+                    ok = False
+                    continue
+                sites.append((blk, i))
+        all_stores = sum(1 for n in pf.walk_shallow(fn, into_nested_defs=True) if isinstance(n, ast.Name) and n.id == name and isinstance(n.ctx, (ast.Store, ast.Del)))
+        if not ok or not sites or all_stores != len(sites) or len(loads) != len(sites):
+            continue
+        plan = []
+        for blk, i in sites:
+            nxt = blk[i + 1]
+            uses = [n for n in ast.walk(nxt) if isinstance(n, ast.Name) and n.id == name and isinstance(n.ctx, ast.Load)]
+            if len(uses) != 1:
+                ok = False
+                break
+            holder = None
+            cands = [nxt] if isinstance(nxt, ast.Assign) else ([x for x in ast.walk(nxt) if isinstance(x, ast.Assign)] if isinstance(nxt, ast.If) else [])
+            for a in cands:
+                if a.value is uses[0]:
+                    holder = a
+            if holder is None:
+                ok = False
+                break
+            if isinstance(nxt, ast.If):
+                # only plain if / else nesting between the test and the use, and tests that only read
+                tests = [x.test for x in ast.walk(nxt) if isinstance(x, ast.If)]
+                if any(isinstance(x, (ast.For, ast.While, ast.With, ast.Try, ast.FunctionDef)) for x in ast.walk(nxt)):
+                    ok = False
+                    break
+                for t in tests:
+                    for c in ast.walk(t):
+                        if isinstance(c, ast.Call) and pf.dotted(c.func) not in _READING:
+                            ok = False
+                        if isinstance(c, (ast.NamedExpr, ast.Await, ast.Yield)):
+                            ok = False
+                # no statement of the `if` in front of the use may change what E reads: require the holder to be the first statement of its branch
+                firsts = {id(x.body[0]) for x in ast.walk(nxt) if isinstance(x, ast.If) and x.body} | {id(x.orelse[0]) for x in ast.walk(nxt) if isinstance(x, ast.If) and x.orelse}
+                if id(holder) not in firsts:
+                    ok = False
+                if not ok:
+                    break
+            plan.append((blk, i, holder))
+        if not ok:
+            continue
+        for blk, i, holder in plan:
+            holder.value = blk[i].value
+        for blk, i, _h in sorted(plan, key=lambda t: -t[1]):
+            del blk[i]
+        changed = changed or bool(plan)
+    if changed:
+        ast.fix_missing_locations(fn)
+    del recv
+    return changed
 
 
 def normalise_class(m: pf.Module, cls_name: str) -> pf.Module:
